@@ -67,8 +67,9 @@ class Stats:
 class Path:
     """State of the path currently being executed."""
 
-    def __init__(self, prefix, stats, timeout_ms):
+    def __init__(self, prefix, stats, timeout_ms, prefix_model=None):
         self.prefix = prefix
+        self.prefix_model = prefix_model
         self.decisions = []
         self.pending = []  # alternative prefixes discovered on this path
         self.solver = z3.Solver()
@@ -81,6 +82,7 @@ class Path:
         self.notes = []
         self.vars = {}
         self.dirty = False
+        self.last_model = None
 
     # -- solver helpers
     def check(self, *extra):
@@ -95,6 +97,9 @@ class Path:
     def add(self, term):
         self.pc.append(term)
         self.solver.add(term)
+        m = self.last_model
+        if m is not None and not z3.is_true(m.eval(term, model_completion=True)):
+            self.last_model = None  # cached model no longer satisfies the path condition
 
     def model(self, *extra):
         r = self.check(*extra)
@@ -664,25 +669,46 @@ def branch(term):
         d = p.prefix[i]
         p.decisions.append(d)
         p.add(term if d else z3.Not(term))
+        if i == len(p.prefix) - 1:
+            p.last_model = p.prefix_model
         return d
     p.stats.branches += 1
-    rt = p.check(term)
-    rf = p.check(z3.Not(term))
+    m = p.last_model
+    side = None
+    if m is not None:
+        v = m.eval(term, model_completion=True)
+        side = True if z3.is_true(v) else (False if z3.is_false(v) else None)
+    m_t = m_f = None
+    if side is True:
+        rt, m_t = z3.sat, m
+    else:
+        rt = p.check(term)
+        if rt == z3.sat:
+            m_t = p.solver.model()
+    if side is False:
+        rf, m_f = z3.sat, m
+    elif rt == z3.sat or side is None:
+        rf = p.check(z3.Not(term))
+        if rf == z3.sat:
+            m_f = p.solver.model()
     p.dirty = False
     if rt == z3.unknown or rf == z3.unknown:
         raise Unsupported("solver returned unknown at a branch")
     if rt == z3.sat and rf == z3.sat:
-        p.pending.append(tuple(p.decisions) + (False,))
+        p.pending.append((tuple(p.decisions) + (False,), m_f))
         p.decisions.append(True)
         p.add(term)
+        p.last_model = m_t
         return True
     if rt == z3.sat:
         p.decisions.append(True)
         p.add(term)
+        p.last_model = m_t
         return True
     if rf == z3.sat:
         p.decisions.append(False)
         p.add(z3.Not(term))
+        p.last_model = m_f
         return False
     raise PathAbort("path condition became infeasible")
 
@@ -721,9 +747,10 @@ def concretize(x, cap=None):
         raise PathAbort("infeasible in concretize")
     vals.sort()
     for v in vals[1:]:
-        p.pending.append(tuple(p.decisions) + (("val", v),))
+        p.pending.append((tuple(p.decisions) + (("val", v),), None))
     p.decisions.append(("val", vals[0]))
     p.add(t == vals[0])
+    p.last_model = None
     return vals[0]
 
 
@@ -771,7 +798,8 @@ def assume(c):
         if z3.is_false(t):
             raise PathAbort("assume(False)")
         p.add(t)
-        p.dirty = True  # feasibility is checked lazily: at the next branch, or at path end
+        if p.last_model is None:
+            p.dirty = True  # feasibility is checked lazily: at the next branch, or at path end
     elif not c:
         raise PathAbort("assume(False)")
 
@@ -876,14 +904,14 @@ def explore(fn, max_paths=200000, timeout_ms=60000, stop_on_cex=True, want_witne
     """
     global _CUR
     res = Result()
-    work = [()]
+    work = [((), None)]
     while work:
-        prefix = work.pop()
+        prefix, pmodel = work.pop()
         if res.stats.paths + res.stats.aborted >= max_paths:
             res.status = "inconclusive" if res.status == "ok" else res.status
             res.reason = f"path budget {max_paths} exceeded"
             break
-        p = Path(prefix, res.stats, timeout_ms)
+        p = Path(prefix, res.stats, timeout_ms, pmodel)
         _CUR = p
         try:
             out = fn()
